@@ -65,8 +65,11 @@
 (*                 of magnitude): only the one-sided consequence                            *)
 (*                 q_a - q_ref <= lambda (ln(1.52 * 2^-20 / prior_a) - L_ref + e_ref) is    *)
 (*                 judged.                                                                 *)
-(*  float32 weight a scalar entropy weight is stored by msdm in a float32 tensor: relative *)
-(*                 rounding 2^-24; every product lambda x gets the slack |lambda x| 2^-23.  *)
+(*  float32 weight a scalar entropy weight w is stored by msdm in a float32 tensor: the         *)
+(*                 evaluation uses float32(w) and the softmax the float32 reciprocal, each     *)
+(*                 within 2^-24 relative of the given weight, hence within 2^-23 of each other;*)
+(*                 every product lambda x gets the slack |lambda x| 2^-22 (operator F32) and   *)
+(*                 the log-sum-exp clause lambda / 2 units for 2^-23 lambda KL(pi | prior).     *)
 EXTENDS MDP, Fixed, Json, IOUtils
 
 Batch == JsonDeserialize(IOEnv.BATCH_FILE)
@@ -86,7 +89,7 @@ Tr == Batch[tid]
 \* ------------------------------------------------------------------ (M) helpers
 CeilLam(T, s)   == (T.LN[s] + T.LD[s] - 1) \div T.LD[s]
 LamMul(T, s, x) == MulDivSat(x, T.LN[s], T.LD[s])
-F32(x)          == AbsI(x) \div 8388608                 \* |x| * 2^-23
+F32(x)          == AbsI(x) \div 4194304                 \* |x| * 2^-22
 RAbsMax(T) == MaxSet({AbsI(T.R[x[1]][x[2]][x[3]]) : x \in St(T) \X Ac(T) \X St(T)} \cup {1})
 \* |V| <= max|R| / (1 - gamma) at the soft fixed point (V* from above, the prior policy's value from below)
 VBound(T)  == MulDiv(RAbsMax(T) * U20, T.GD, T.GD - T.GN) + 1
@@ -187,10 +190,10 @@ SmallBad(T, e, s, a) ==
       lam == LamMul(T, s, LSmall(T, s, a) - e.L[s][r] + EUnits(e, s, r))
   IN (e.q[s][a] - e.q[s][r]) > lam + CeilLam(T, s) + 4 + F32(lam)
 \* V = prior-weighted log-sum-exp of Q:  v = q_a - lambda L_a for every judged a
-\* (an integer weight is used exactly by the evaluation and as the float32 reciprocal by the softmax: the two
-\*  temperatures differ by 2^-24 relative, which moves v by at most 2^-24 lambda KL(pi | prior) <= lambda / 4 units)
+\* (the temperatures used by the evaluation and by the softmax differ by up to 2^-23 relative, which moves v by at
+\*  most 2^-23 lambda KL(pi | prior) <= 2^-23 * 2.78 * 2^20 lambda < lambda / 2 units)
 LseTol(T, e, s, a) == LamMul(T, s, EUnits(e, s, a)) + 1 + Delta(T, e, s) + CeilLam(T, s) + 4
-                      + F32(LamMul(T, s, e.L[s][a])) + (CeilLam(T, s) \div 4) + 1
+                      + F32(LamMul(T, s, e.L[s][a])) + (CeilLam(T, s) \div 2) + 1
 FixFails(T, e, j) ==
   {FR("policy-not-softmax-of-action-values", j, x[1], x[2][1], x[2][2],
       SoftRes(T, e, x[1], x[2][1], x[2][2]),
